@@ -174,8 +174,12 @@ def run(tier):
     # allowed where both marks are known to be on the same line (there index distance = column distance, which CR LF does not change);
     # equality with a recorded index is independent of the break style.
     n_idx = 0
+    # only code that runs while scanning / parsing can let the break style steer the parse: the scanner's and parser's own functions and what
+    # they call (a public utility such as a span accessor that nothing on the parse path calls is outside the property)
+    from . import C01 as _C01
+    onpath = _C01.parse_path_functions(F)
     for k, f in sorted(F.fns.items()):
-        if f.crate != "saphyr_parser" or "::test" in k or f.d.get("derived"):
+        if f.crate != "saphyr_parser" or "::test" in k or f.d.get("derived") or k not in onpath:
             continue
         for bi, b in enumerate(f.blocks):
             if b["cleanup"] or b["term"]["k"] != "switch":
